@@ -130,7 +130,7 @@ def sample_cases(cases, limit, rnd):
 # ================================================================================================ C17
 
 T_ALL = dict(MaxCalls=2, MaxTools=2, Modes=["invoke", "stream"], Graphs=[True, False], Handlers=["none", "ok", "fail"],
-             Kinds=["inv", "str", "both"], Behs=["ok", "empty", "fail", "panic", "failmid"], MaxChunks=2, AllowUnknown=True, MaxFaulty=3,
+             Kinds=["inv", "str", "both"], Behs=["ok", "empty", "fail", "panic", "failmid"], MaxChunks=2, AllowUnknown=True, MaxFaulty=3, Consumers=1,
              Eager=False, Bug="none")
 
 
@@ -232,6 +232,9 @@ def c17(tier, repo=None, only_cases=None):
         mc("n3-faults", t_consts(MaxCalls=3, MaxTools=3, MaxChunks=1, Behs=["ok", "fail", "panic"], Kinds=["inv", "str"], Handlers=["none", "ok"], MaxFaulty=2))
         for bug in ("reverse", "sharedidx", "noinlinewait", "dropempty"):
             mc("n2-bug-" + bug, t_consts(Bug=bug), expect_violation="RuleOK")
+        two = dict(Consumers=2, Modes=["stream"], Graphs=[True], Behs=["ok", "empty", "failmid"], Handlers=["none", "ok"])
+        mc("n2-two-consumers", t_consts(**two))
+        mc("n2-bug-concatinplace", t_consts(Bug="concatinplace", **two), expect_violation="RuleOK")
         if tier == "thorough":
             mc("n3-chunks", t_consts(MaxCalls=3, MaxTools=2, Behs=["ok", "empty", "failmid"], MaxFaulty=1, AllowUnknown=False, Graphs=[False]), timeout=1500)
             mc("n3-all-kinds", t_consts(MaxCalls=3, MaxTools=3, MaxChunks=1, Behs=["ok", "fail", "panic"], MaxFaulty=3), timeout=1500)
@@ -272,6 +275,12 @@ def c17(tier, repo=None, only_cases=None):
             c["wrap"], c["jsonargs_wanted"] = True, True      # the same utils-built tool decoding several calls at once
         c.setdefault("wrap", rnd.random() < 0.4)     # secondary dimension: tools built with components/tool/utils
         c.setdefault("optlist", rnd.random() < 0.2)  # secondary dimension: tool list given per call (WithToolList)
+        if "shape" not in c:
+            # graph cases: a part of them puts consumers behind the tools node (non-stream branch condition + successor, two
+            # successors, callback handler + successor); in the stream form these concatenate copies of the same frames
+            c["shape"] = ""
+            if c["graph"] and rnd.random() < (0.6 if c["mode"] == "stream" else 0.2):
+                c["shape"] = ("branch", "fanout", "callback")[rnd.randrange(3)]
         if "deep" not in c:
             # panicking tools panic from a deep recursion in a fraction of the cases: the long unwinding widens the window between
             # the panic and the moment its error is stored (needs the panicking call to finish last: the schedules cover that)
@@ -376,7 +385,7 @@ def c17(tier, repo=None, only_cases=None):
 # ================================================================================================ C18
 
 R_STYLES_JUDGED = ["d-whole", "d-tcfirst", "d-emptyfirst", "d-splitargs", "d-percall", "w-whole", "w-tcfirst", "w-percall", "w-contentfirst"]
-R_ALL = dict(MaxMsgs=2, MaxCalls=2, MaxTools=2, MaxSteps=[0, 2, 3, 4, 5, 6], RdMode="all", Modifiers=[True, False],
+R_ALL = dict(MaxMsgs=2, MaxCalls=2, MaxTools=2, MaxSteps=[0, 2, 3, 4, 5, 6], RdMode="all", Modifiers=[True, False], Inplace=[True, False],
              Styles=R_STYLES_JUDGED, Contents=[True, False], Wide=[], Eager=False, Bug="none")
 STYLE = {"d": "default", "w": "whole"}
 
@@ -394,7 +403,8 @@ def c18_decorate(cases, rnd):
         c["id"] = "%s-%d" % (c.get("fam", "r"), i)
         sty = R_STYLES_JUDGED[rnd.randrange(len(R_STYLES_JUDGED))]
         c["checker"], c["chunking"] = STYLE[sty[0]], sty[2:]
-        c["modifier"] = rnd.random() < 0.4
+        c["modifier"] = rnd.random() < 0.35
+        c["inplace"] = (not c["modifier"]) and rnd.random() < 0.4      # a MessageModifier that edits its argument in place
         if rnd.random() < 0.5:
             for j, m in enumerate(c["script"]):
                 if m["calls"]:
@@ -435,6 +445,8 @@ def c18_classify(case, reason, mode):
         extra.append("rd")
     if case["modifier"]:
         extra.append("modifier")
+    if case.get("inplace"):
+        extra.append("inplace")
     if case["maxstep"]:
         extra.append("maxstep")
     return "%s/%s%s" % (reason, mode, ("/" + "+".join(extra)) if extra else "")
@@ -467,18 +479,18 @@ def c18(tier, repo=None, only_cases=None):
     if only_cases is None:
         small = dict(Styles=["d-whole"], Contents=[False])
         mc("m2-styles", r_consts(MaxSteps=[0, 2, 3, 5]))
-        mc("m3-core", r_consts(MaxMsgs=3, Modifiers=[False], **small))
-        mc("m2-wide", r_consts(MaxCalls=1, MaxSteps=[0, 4], Modifiers=[False], Wide=[5, 6], **small))
-        mc("m2-liveness", r_consts(MaxSteps=[0, 3], RdMode="none", Modifiers=[False], **small), props=["Terminates"], spec=True)
-        for bug in ("noappend", "norecord", "nomax", "rdlast", "modleak"):
+        mc("m3-core", r_consts(MaxMsgs=3, Modifiers=[False], Inplace=[False], **small))
+        mc("m2-wide", r_consts(MaxCalls=1, MaxSteps=[0, 4], Modifiers=[False], Inplace=[False], Wide=[5, 6], **small))
+        mc("m2-liveness", r_consts(MaxSteps=[0, 3], RdMode="none", Modifiers=[False], Inplace=[False], **small), props=["Terminates"], spec=True)
+        for bug in ("noappend", "norecord", "nomax", "rdlast", "modleak", "nocopy"):
             mc("m2-bug-" + bug, r_consts(Bug=bug, **small), expect_violation="RuleOK")
         # the documented limitation (AgentConfig.StreamToolCallChecker): default first-chunk checker + content before tool calls
-        mc("m2-documented-limit", r_consts(Styles=["d-contentfirst"], Contents=[True], MaxSteps=[0], RdMode="none", Modifiers=[False]),
+        mc("m2-documented-limit", r_consts(Styles=["d-contentfirst"], Contents=[True], MaxSteps=[0], RdMode="none", Modifiers=[False], Inplace=[False]),
            expect_violation="RuleOK")
         if tier == "thorough":
             mc("m3-styles", r_consts(MaxMsgs=3, MaxSteps=[0, 3, 4, 6]), timeout=1700)
-            mc("m4-core", r_consts(MaxMsgs=4, MaxTools=3, MaxSteps=[0, 4, 6], Modifiers=[False], **small), timeout=1700)
-        gen = dict(Eager=True, Modifiers=[False], **small)
+            mc("m4-core", r_consts(MaxMsgs=4, MaxTools=3, MaxSteps=[0, 4, 6], Modifiers=[False], Inplace=[False], **small), timeout=1700)
+        gen = dict(Eager=True, Modifiers=[False], Inplace=[False], **small)
         if tier == "quick":
             fams = [("s3", r_consts(MaxMsgs=3, **gen), 2000, {}),
                     ("wide", r_consts(MaxMsgs=2, MaxCalls=1, MaxSteps=[0, 4], Wide=[5, 6, 7], **gen), 200, {})]
